@@ -8,7 +8,7 @@ package main
 // input keys: inst (tokens of the startup schedule) shared (1 = one shared profile, 0 = rps-per-instance) tokens ammo
 // (-1 = unbounded) discard past (every past-th token is 3 s overdue) shotus sched (once|const|comp|comp2|line|step|paced<ms>)
 // start (once|ramp<ms>) prov (mock|json|jsonlimit|jsonpass|num) aggr (mock|phout)
-// ctl (""|rand:<seed>:<style>|path:<base-36 choices>)
+// ctl (""|rand:<seed>:<style>|path:<base-36 choices>|pb:<step>.<k>,… = preemption-bounded schedule)
 
 import (
 	"context"
@@ -44,48 +44,93 @@ func run(input string) string {
 		return o
 	}
 	cacheMu.Unlock()
-	return runReal(input)
+	return execute(input)
 }
 
-func runReal(input string) string {
-	m := drv.KV(input)
+// poolRun: one pool of the engine with its own recorder.
+type poolRun struct {
+	rec        *recorder
+	exact, cap int
+	conf       engine.InstancePoolConfig
+}
+
+func mkPool(get func(string) string, metrics engine.Metrics) (*poolRun, error) {
 	rec := newRecorder()
-	tokens := atoi(m["tokens"])
-	inst := atoi(m["inst"])
+	tokens := atoi(get("tokens"))
+	inst := atoi(get("inst"))
+	pr := &poolRun{rec: rec}
 	// the real schedule may round (const, line, step): learn the exact token count from a twin
-	exact := mkSchedule(m["sched"], tokens).Left()
-	cap := mkStartup(m["start"], inst).Left()
-	p := mkProvider(rec, m["prov"], atoi(m["ammo"]))
+	pr.exact = mkSchedule(get("sched"), tokens).Left()
+	pr.cap = mkStartup(get("start"), inst).Left()
+	p := mkProvider(rec, get("prov"), atoi(get("ammo")))
 	var ids map[any]int
 	if wp, ok := p.(*wprov); ok {
 		ids = wp.ids
 	}
-	ag, err := mkAggregator(rec, m["aggr"])
+	ag, err := mkAggregator(rec, get("aggr"))
 	if err != nil {
-		return "res=err:aggregator"
+		return nil, err
 	}
-	metrics := engine.Metrics{Request: &monitoring.Counter{}, Response: &monitoring.Counter{},
-		InstanceStart: &monitoring.Counter{}, InstanceFinish: &monitoring.Counter{}}
-	shot := time.Duration(atoi(m["shotus"])) * time.Microsecond
-	conf := engine.Config{Pools: []engine.InstancePoolConfig{{
+	shot := time.Duration(atoi(get("shotus"))) * time.Microsecond
+	schedKind, past, phout := get("sched"), atoi(get("past")), get("aggr") == "phout"
+	pr.conf = engine.InstancePoolConfig{
 		Provider:   p,
 		Aggregator: ag,
 		NewGun: func() (core.Gun, error) {
-			return &gun{r: rec, shot: shot, report: m["aggr"] == "phout", ids: ids}, nil
+			return &gun{r: rec, shot: shot, report: phout, ids: ids}, nil
 		},
-		RPSPerInstance: m["shared"] == "0",
+		RPSPerInstance: get("shared") == "0",
 		NewRPSSchedule: func() (core.Schedule, error) {
-			return &sched{r: rec, inner: mkSchedule(m["sched"], tokens), past: atoi(m["past"])}, nil
+			return &sched{r: rec, inner: mkSchedule(schedKind, tokens), past: past}, nil
 		},
-		StartupSchedule: mkStartup(m["start"], inst),
-		DiscardOverflow: m["discard"] == "1",
-	}}}
+		StartupSchedule: mkStartup(get("start"), inst),
+		DiscardOverflow: get("discard") == "1",
+	}
+	return pr, nil
+}
+
+func runReal(input string) string {
+	m := drv.KV(input)
+	metrics := engine.Metrics{Request: &monitoring.Counter{}, Response: &monitoring.Counter{},
+		InstanceStart: &monitoring.Counter{}, InstanceFinish: &monitoring.Counter{}}
+	npools := atoi(m["pools"])
+	if npools < 1 {
+		npools = 1
+	}
+	var prs []*poolRun
+	var conf engine.Config
+	for j := 0; j < npools; j++ {
+		j := j
+		get := func(k string) string { // `key.j` overrides `key` for pool j
+			if v, ok := m[k+"."+itoa(j)]; ok {
+				return v
+			}
+			return m[k]
+		}
+		pr, err := mkPool(get, metrics)
+		if err != nil {
+			return "res=err:aggregator"
+		}
+		prs = append(prs, pr)
+		conf.Pools = append(conf.Pools, pr.conf)
+	}
+	rec := prs[0].rec
 	var c *ctl
-	if spec := m["ctl"]; spec != "" {
+	if spec := m["ctl"]; spec != "" && npools == 1 {
+		cap := prs[0].cap
 		c = &ctl{r: rec, wake: make(chan struct{}, 1), parked: map[int]chan struct{}{}, resting: map[int]bool{},
 			started: func() int { return int(metrics.InstanceStart.Get()) }, stop: make(chan struct{}),
-			wait: 300 * time.Microsecond, last: -1}
+			wait: 300 * time.Microsecond, firstWait: 20 * time.Millisecond, last: -1}
 		parts := strings.Split(spec, ":")
+		systematic := func() {
+			// systematic modes: operations are instantaneous (once profile, no shot time), so a long patience costs
+			// nothing and keeps the enumeration deterministic on a loaded machine
+			c.wait = 400 * time.Millisecond
+			c.firstWait = time.Second
+			if m["start"] == "" || m["start"] == "once" {
+				c.first = cap
+			}
+		}
 		switch parts[0] {
 		case "path":
 			c.path = []int{}
@@ -94,10 +139,18 @@ func runReal(input string) string {
 					c.path = append(c.path, strings.IndexRune(b36, ch))
 				}
 			}
-			c.wait = 20 * time.Millisecond
-			if m["start"] == "" || m["start"] == "once" {
-				c.first = cap
+			systematic()
+		case "pb": // pb:<step>.<k>,<step>.<k>…  preemption-bounded schedule
+			c.isPB = true
+			if len(parts) > 1 && parts[1] != "" {
+				for _, it := range strings.Split(parts[1], ",") {
+					sk := strings.SplitN(it, ".", 2)
+					if len(sk) == 2 {
+						c.pb = append(c.pb, preempt{atoi(sk[0]), atoi(sk[1])})
+					}
+				}
 			}
+			systematic()
 		default: // rand:<seed>:<style>
 			seed, style := int64(1), 0
 			if len(parts) > 1 {
@@ -115,7 +168,7 @@ func runReal(input string) string {
 	eng := engine.New(zap.NewNop(), metrics, conf)
 	ctx, cancel := context.WithTimeout(context.Background(), 15*time.Second)
 	defer cancel()
-	err = eng.Run(ctx)
+	err := eng.Run(ctx)
 	if c != nil {
 		c.halt()
 	}
@@ -124,22 +177,31 @@ func runReal(input string) string {
 	if err != nil {
 		res = "err:" + strings.ReplaceAll(drv.Clean(err.Error()), " ", "_")
 	}
-	rec.mu.Lock()
-	defer rec.mu.Unlock()
 	b := func(x bool) int {
 		if x {
 			return 1
 		}
 		return 0
 	}
-	mn, mx := rec.relMinMax()
-	ctlObs := ""
-	if c != nil {
-		ctlObs = fmt.Sprintf(" partial=%d br=%s", c.partial, string(c.br))
+	var sb strings.Builder
+	fmt.Fprintf(&sb, "res=%s started=%d finished=%d req=%d resp=%d", res, metrics.InstanceStart.Get(), metrics.InstanceFinish.Get(),
+		metrics.Request.Get(), metrics.Response.Get())
+	for j, pr := range prs {
+		sfx := ""
+		if npools > 1 {
+			sfx = "." + itoa(j)
+		}
+		pr.rec.mu.Lock()
+		mn, mx := pr.rec.relMinMax()
+		fmt.Fprintf(&sb, " exact%s=%d cap%s=%d uar%s=%d dbl%s=%d relmin%s=%d relmax%s=%d", sfx, pr.exact, sfx, pr.cap, sfx, b(pr.rec.uar),
+			sfx, b(pr.rec.dbl), sfx, mn, sfx, mx)
+		if c != nil && j == 0 {
+			fmt.Fprintf(&sb, " partial=%d br=%s", c.partial, string(c.br))
+		}
+		fmt.Fprintf(&sb, " log%s=%s", sfx, strings.Join(pr.rec.evs, ","))
+		pr.rec.mu.Unlock()
 	}
-	return fmt.Sprintf("res=%s exact=%d cap=%d started=%d finished=%d req=%d resp=%d uar=%d dbl=%d relmin=%d relmax=%d%s log=%s",
-		res, exact, cap, metrics.InstanceStart.Get(), metrics.InstanceFinish.Get(), metrics.Request.Get(), metrics.Response.Get(),
-		b(rec.uar), b(rec.dbl), mn, mx, ctlObs, strings.Join(rec.evs, ","))
+	return sb.String()
 }
 
 // ---------------------------------------------------------------- systematic enumeration of interleavings
@@ -155,7 +217,14 @@ func dfs(base string, maxRuns int) ([]string, bool) {
 			sb.WriteByte(b36[k])
 		}
 		in := base + " ctl=path:" + sb.String()
-		obs := runReal(in)
+		obs := execute(in)
+		if !strings.HasPrefix(obs, "res=") {
+			// crash or hang: report it for this input and stop enumerating this configuration
+			cacheMu.Lock()
+			cache[in] = obs
+			cacheMu.Unlock()
+			return append(out, in), false
+		}
 		cacheMu.Lock()
 		cache[in] = obs
 		cacheMu.Unlock()
@@ -265,7 +334,7 @@ func gen(r *rand.Rand, tier string) []string {
 	// 2. random cells
 	n := 150
 	if thorough {
-		n = 4000
+		n = 8000
 	}
 	for i := 0; i < n; i++ {
 		extra := "prov=" + pick(r, provs...) + " aggr=" + pick(r, aggrs...)
@@ -282,7 +351,7 @@ func gen(r *rand.Rand, tier string) []string {
 	//    instances hold an item and sleep in Wait while others run out of ammo / finish the schedule / are being started
 	n = 40
 	if thorough {
-		n = 400
+		n = 1500
 	}
 	for i := 0; i < n; i++ {
 		inst := 2 + r.Intn(3)
@@ -296,9 +365,9 @@ func gen(r *rand.Rand, tier string) []string {
 	}
 
 	// 4. controlled scheduling, seeded: many interleavings of the same small configuration
-	n = 120
+	n = 150
 	if thorough {
-		n = 6000
+		n = 60000
 	}
 	for i := 0; i < n; i++ {
 		inst := 2 + r.Intn(4)
@@ -307,11 +376,30 @@ func gen(r *rand.Rand, tier string) []string {
 		out = append(out, line(inst, r.Intn(2), tokens, pick(r, -1, r.Intn(8), tokens, tokens+1), r.Intn(2), pick(r, 0, 0, 1, 2), 0, pick(r, "once", "once", "comp"), extra))
 	}
 
+	// 4b. engines with two or three pools that share the Request / Response counters
+	n = 40
+	if thorough {
+		n = 1500
+	}
+	for i := 0; i < n; i++ {
+		np := 2 + r.Intn(2)
+		l := line(1+r.Intn(5), r.Intn(2), r.Intn(12), pick(r, -1, r.Intn(15)), r.Intn(2), r.Intn(4), pick(r, 0, 20), pick(r, kinds...),
+			fmt.Sprintf("pools=%d prov=%s aggr=%s", np, pick(r, provs...), pick(r, aggrs...)))
+		for j := 1; j < np; j++ {
+			l += fmt.Sprintf(" shared.%d=%d tokens.%d=%d ammo.%d=%d inst.%d=%d discard.%d=%d", j, r.Intn(2), j, r.Intn(12), j, pick(r, -1, r.Intn(15)),
+				j, 1+r.Intn(4), j, r.Intn(2))
+			if r.Intn(2) == 0 {
+				l += fmt.Sprintf(" start.%d=ramp%d sched.%d=%s", j, pick(r, 1, 3), j, pick(r, kinds...))
+			}
+		}
+		out = append(out, l)
+	}
+
 	// 5. systematic enumeration: EVERY interleaving (at the granularity of the logged operations) of tiny pools
 	var bases []string
-	maxRuns := 120
+	maxRuns := 500
 	if thorough {
-		maxRuns = 4000
+		maxRuns = 15000
 	}
 	for _, shared := range []int{1, 0} {
 		for _, t := range []int{0, 1} {
@@ -337,6 +425,44 @@ func gen(r *rand.Rand, tier string) []string {
 	}
 	out = append(out, dfsAll(bases, maxRuns)...)
 
+	// 6. preemption-bounded enumeration (every schedule that runs each instance on until it ends, except for at most
+	//    1 (quick) / 2 (thorough) forced switches at any step to any other instance) of somewhat larger pools
+	var pbBases []string
+	if thorough {
+		for _, shared := range []int{1, 0} {
+			pbBases = append(pbBases,
+				line(3, shared, 2, -1, 0, 0, 0, "once", ""),
+				line(3, shared, 2, 3, 1, 2, 0, "once", ""),
+				line(3, shared, 3, 2, 0, 0, 0, "once", "prov=json"),
+				line(4, shared, 2, 5, 1, 3, 0, "comp", ""),
+				line(4, shared, 1, -1, 0, 0, 0, "once", "aggr=phout"),
+				line(2, shared, 4, 3, 1, 2, 0, "once", "prov=num"),
+				line(5, shared, 1, 2, 0, 0, 0, "once", ""),
+				line(3, shared, 4, -1, 1, 3, 0, "comp", "prov=jsonpass aggr=phout"))
+		}
+	} else {
+		pbBases = append(pbBases, line(3, 1, 2, -1, 0, 0, 0, "once", ""), line(3, 0, 2, 3, 1, 2, 0, "once", ""))
+	}
+	for _, b := range pbBases {
+		base := execute(b + " ctl=pb:")
+		steps := len(drv.KV(base)["br"])/2 + 6
+		others := atoi(drv.KV(b)["inst"]) - 1
+		out = append(out, b+" ctl=pb:")
+		for s1 := 0; s1 < steps; s1++ {
+			for k1 := 0; k1 < others; k1++ {
+				out = append(out, fmt.Sprintf("%s ctl=pb:%d.%d", b, s1, k1))
+				if !thorough {
+					continue
+				}
+				for s2 := s1 + 1; s2 < steps; s2++ {
+					for k2 := 0; k2 < others; k2++ {
+						out = append(out, fmt.Sprintf("%s ctl=pb:%d.%d,%d.%d", b, s1, k1, s2, k2))
+					}
+				}
+			}
+		}
+	}
+
 	// distinct lines only
 	seen := map[string]bool{}
 	var uniq []string
@@ -350,11 +476,29 @@ func gen(r *rand.Rand, tier string) []string {
 }
 
 func main() {
+	if len(os.Args) > 1 && os.Args[1] == "-worker" {
+		workerMain()
+		return
+	}
+	if len(os.Args) > 2 && os.Args[1] == "-dfs" { // debugging aid: enumerate one configuration, print the paths
+		ins, done := dfs(os.Args[2], 100000)
+		for _, in := range ins {
+			fmt.Println(in[strings.Index(in, "ctl="):], drv.KV(cache[in])["br"], drv.KV(cache[in])["partial"], drv.KV(cache[in])["log"])
+		}
+		fmt.Fprintln(os.Stderr, len(ins), done)
+		return
+	}
 	drv.Main(&drv.Prop{
-		ID: "C03", Gen: gen, Run: run, Workers: 8, Timeout: 30 * time.Second,
+		ID: "C03", Gen: gen, Run: run, Workers: 10, Timeout: 60 * time.Second,
 		Class: func(in, obs string) string {
 			m := drv.KV(in)
 			o := drv.KV(obs)
+			if np := atoi(m["pools"]); np > 1 {
+				if o["log.0"] == "" && o["log.1"] == "" {
+					return ""
+				}
+				return fmt.Sprintf("engine-with-%d-pools", np)
+			}
 			if o["log"] == "" {
 				return ""
 			}
@@ -366,6 +510,8 @@ func main() {
 			switch {
 			case strings.HasPrefix(m["ctl"], "path"):
 				how = "enumerated"
+			case strings.HasPrefix(m["ctl"], "pb"):
+				how = "preemption-bounded"
 			case strings.HasPrefix(m["ctl"], "rand"):
 				how = "ctl-random"
 			case strings.HasPrefix(m["start"], "ramp"):
@@ -388,6 +534,6 @@ func main() {
 			c += "/" + how + "/" + what
 			return c
 		},
-		Rule: "real engine.Engine, one pool: matrix instances x shared/per-instance x tokens x ammo bound x discard_overflow with random profile shape (once/const/composite/line/step), overdue tokens, shot duration, startup (once/ramp), provider (mock/real JSON DecodeProvider+AmmoQueue/real Num) and aggregator (mock/real phout); random cells; paced profiles with a startup ramp that is still running when ammo ends; seeded controlled scheduling (random/sticky/lock-step choice of the next instance operation); exhaustive enumeration of all operation interleavings of 2-instance pools with <=1 token; non-trivial = at least one event logged; distinct input lines",
+		Rule: "real engine.Engine, one pool (some engines with 2-3 pools sharing the counters): matrix instances x shared/per-instance x tokens x ammo bound x discard_overflow with random profile shape (once/const/composite/line/step), overdue tokens, shot duration, startup (once/ramp), provider (mock/real JSON DecodeProvider+AmmoQueue/real Num) and aggregator (mock/real phout); random cells; paced profiles with a startup ramp that is still running when ammo ends; seeded controlled scheduling (random/sticky/lock-step choice of the next instance operation); exhaustive enumeration of all operation interleavings of 2-instance pools with <=1 token (larger ones up to a cap); all schedules with <=1 (quick) / <=2 (thorough) preemptions of 2-4 instance pools; non-trivial = at least one event logged; distinct input lines",
 	})
 }
